@@ -118,54 +118,28 @@ class CorralLearner(Learner):
         f  = lambda l: float(sum( [ 1/((1/p) + eta*(loss-l)) for p, eta, loss in zip(ps, etas, losses)]))
         df = lambda l: float(sum( [ eta/((1/p) + eta*(loss-l))**2 for p, eta, loss in zip(ps, etas, losses)]))
 
-        denom_zeros = [ ((-1/p)-(eta*loss))/-eta for p, eta, loss in zip(ps, etas, losses) ]
-
         min_loss = min(losses)
         max_loss = max(losses)
 
         precision = 4
 
-        def binary_search(l,r) -> Optional[float]:
-            #in theory the above check should guarantee this has a solution
-            while True:
+        # f is increasing on (-inf, first pole), f(min_loss) <= sum(ps) and f(max_loss) >= sum(ps) (or f -> +inf at the
+        # first pole when it lies below max_loss): the root that keeps every weight positive is in [min_loss, hi).
+        lo = min_loss
+        hi = min([max_loss] + [ loss + 1/(p*eta) for p, eta, loss in zip(ps, etas, losses) ])
 
-                x = (l+r)/2
-                y = f(x)
+        for _ in range(200):
+            x = (lo+hi)/2
+            if x <= lo or x >= hi: break
+            if f(x) < 1: lo = x
+            else: hi = x
 
-                if round(y,precision) == 1:
-                    return x
-
-                if y < 1:
-                    l = x
-
-                if y > 1:
-                    r = x
-
-        def find_root_of_1():
-            brackets = list(sorted(filter(lambda z: min_loss <= z and z <= max_loss, set(denom_zeros + [min_loss, max_loss]))))
-
-            for l_brack, r_brack in zip(brackets[:-1], brackets[1:]):
-
-                if (f(l_brack+.00001)-1) * (f(r_brack-.00001)-1) >= 0:
-                    continue
-                else:
-                    # we use binary search because newtons
-                    # method can overshoot our objective
-                    return binary_search(l_brack, r_brack)
-
-        if min_loss == max_loss:
-            lmbda = min_loss
-        elif min_loss not in denom_zeros and round(f(min_loss),precision) == 1:
-            lmbda = min_loss
-        elif max_loss not in denom_zeros and round(f(max_loss),precision) == 1:
-            lmbda = max_loss
-        else:
-            lmbda = find_root_of_1()
-
-        if lmbda is None:
-            raise Exception(f'Something went wrong in Corral OMD {ps}, {etas}, {losses}')
+        lmbda = lo
 
         new_ps = [ 1/((1/p) + eta*(loss-lmbda)) for p, eta, loss in zip(ps, etas, losses)]
+
+        total = sum(new_ps)
+        new_ps = [ p/total for p in new_ps ]
 
         assert round(sum(new_ps),precision) == 1, "An invalid update was made by the log barrier in Corral"
 
